@@ -641,6 +641,16 @@ def m_into_via_from(M, a, c, fr):
     return M.call('<%s as From<%s>>::from' % (dst, src), a, fr)
 
 
+def m_map_iter(M, a, c, fr):
+    m = M.load(a[0])
+    if m.extra is None or 'keys' not in m.extra: raise Inconclusive('BTreeMap::iter on a map without a concrete key set')
+    out = []
+    for k in sorted(m.extra['keys']):
+        kb = bv(k, m.present.domain().size())
+        out.append([Ref(Cell(m.extra['mk_key'](kb) if 'mk_key' in m.extra else kb)), Ref(Cell(z3.Select(m.val, kb)))])
+    return IntoIt(out)
+
+
 def m_write_fmt(M, a, c, fr):
     M.aux.setdefault('fmt_log', []).append(a[1])
     return res_ok([])
@@ -681,7 +691,7 @@ MODELS = [
     (r'BTreeMap::<.*>::entry', m_map_entry),
     (r"std::collections::btree_map::VacantEntry::<.*>::insert", m_vacant_insert),
     (r"std::collections::btree_map::OccupiedEntry::<.*>::get", m_occupied_get),
-    (r'BTreeMap::<.*>::get::<.*>', m_map_get), (r'BTreeMap::<.*>::insert', m_map_insert),
+    (r'BTreeMap::<.*>::get::<.*>', m_map_get), (r'BTreeMap::<.*>::insert', m_map_insert), (r'BTreeMap::<.*>::iter', m_map_iter),
     # Option / Result
     (r'Option::<.*>::map::<.*>', m_opt_map), (r'Option::<.*>::map_or::<.*>', m_opt_map_or),
     (r'Option::<.*>::unwrap_or', m_opt_unwrap_or), (r'Option::<.*>::cloned', m_opt_cloned),
